@@ -53,6 +53,16 @@ def translate():
             tprelude.translate(REPO, os.path.join(gen, 'Prelude.lean'))
     except Exception as e:
         raise Broken('translator', f'cannot translate /repo sources: {e}')
+    # second stage: the closures whose stored bodies are macro-expanded at load time (prelude definitions that use macros,
+    # all of debugger.lisp) are obtained from the model's own loader: build the model driver, let it load the current sources
+    from translate import prelude_expanded as tpx
+    lake_build(['picimodel'])
+    try:
+        with Lock('translate'):
+            tpx.translate(MODEL_BIN, REPO, os.path.join(gen, 'PreludeExpanded.lean'))
+            tpx.translate(MODEL_BIN, REPO, os.path.join(gen, 'DebuggerExpanded.lean'), module='debugger', namespace='DebuggerX', wanted=None)
+    except Exception as e:
+        raise Broken('translator', f'the model cannot load the current prelude.lisp / debugger.lisp: {e}')
 
 
 # ---------------------------------------------------------------- Lean: build + audit
